@@ -73,6 +73,15 @@ Theorem cycle_step : forall cfgs beh g,
 Proof. exact EngineFacts.evaluate_graph_boundary. Qed.
 Print Assumptions cycle_step.
 
+(* The run loop terminates: with fuel (end - start) + 1 a run never runs out of fuel, for any
+   ranked graph and user code (cycle times strictly increase, so there are at most end - start
+   cycles).  The error code 9 is the model's out-of-fuel value; user errors are 2 and 3. *)
+Theorem run_terminates : forall cfgs beh start end_,
+  well_ranked cfgs -> start_ops_ok beh start -> start <= MAX_DT -> end_ <= MAX_DT ->
+  g_err (run_sim cfgs beh start end_ (Z.to_nat (end_ - start) + 1)) <> 9.
+Proof. exact EngineFacts.sim_run_terminates. Qed.
+Print Assumptions run_terminates.
+
 (* ---- non-vacuity: a concrete ranked program with two scheduler nodes, tags, a
    replacement and an input edge meets every hypothesis and runs 6 cycles. ---- *)
 Definition ex_case : wire :=
